@@ -236,6 +236,29 @@ def k_via_align(run, case):
 
     cs, only = bool(rng.random() < .5), bool(rng.random() < .3)
     nn = -1 if rng.random() < .5 else int(rng.integers(3, n + 1))
+    if rng.random() < .2:
+        # point sets of unequal size through the trajectory API: must be refused, estimate untouched
+        from evo.core.geometry import GeometryException
+        k = int(rng.integers(1, 6))
+        longer = bool(rng.random() < .5)
+        big = gen.traj_arrays(rng, n + k, stamp_cls="index")
+        a_ref, a_est = (big, est) if longer else (ref, {kk: (v[:max(1, n - k)] if isinstance(v, np.ndarray) else v) for kk, v in est.items()})
+        o_ref = gen.make_evo(a_ref, mode, stamped=False)
+        o_est = gen.make_evo(a_est, mode, stamped=False)
+        before = gen.read_views(gen.make_evo(a_est, mode, stamped=False))
+        out = contracts.outcome_of(o_est.align, o_ref, cs, only, -1)
+        after = gen.read_views(o_est)
+        run.seen(case, core.digest(a_ref["p"], a_est["p"], "unequal"), cls=["via PosePath3D.align: unequal sizes"],
+                 sample={"n_est": len(a_est["p"]), "n_ref": len(a_ref["p"]), "outcome": out[0]})
+        run.check(out[0] == "exc" and isinstance(out[1], GeometryException),
+                  "align refuses point sets of unequal size", case,
+                  "align(n=-1) of %d poses to %d poses was not refused with GeometryException: %r" %
+                  (len(a_est["p"]), len(a_ref["p"]), out[1] if out[0] == "exc" else "returned a result"),
+                  key="umeyama@align:shape-not-refused")
+        run.check(core.bits_equal(after["p"], before["p"]) and core.bits_equal(after["T"], before["T"]),
+                  "refused alignment leaves the estimate untouched", case, "estimate changed by a refused alignment",
+                  key="umeyama@align:refusal-not-clean")
+        return
     with contracts.wrapped(geometry, "umeyama_alignment", mk):
         contracts.outcome_of(t_est.align, t_ref, cs, only, nn)
     run.seen(case, core.digest(ref["p"], est["p"], cs, only, nn), cls=["via PosePath3D.align"],
@@ -272,4 +295,4 @@ def main(run):
              "equivariance: rotation", "exactly degenerate set refused",
              "umeyama: unequal shapes refused", "umeyama@align: optimal vs Horn",
              "umeyama: reflection branch (det cov < 0) observed",
-             "umeyama: scale exactly 1 without scale estimation")
+             "umeyama: scale exactly 1 without scale estimation", "align refuses point sets of unequal size")
